@@ -11,10 +11,12 @@ mod c12;
 mod queries;
 mod engine_run;
 mod c04;
+mod c05;
 mod c09;
 mod c11;
 mod c15;
 mod c18;
+mod c19;
 mod c17;
 mod extract;
 mod c01;
@@ -75,10 +77,12 @@ fn main() {
                 "C16" => c16::run(&params),
                 "C03" => c03::run(&params),
                 "C04" => c04::run(&params),
+                "C05" => c05::run(&params),
                 "C09" => c09::run(&params),
                 "C11" => c11::run(&params),
                 "C15" => c15::run(&params),
                 "C18" => c18::run(&params),
+                "C19" => c19::run(&params),
                 "C10" => c10::run(&params),
                 "C12" => c12::run(&params),
                 "C17" => c17::run(&params),
